@@ -183,29 +183,25 @@ func (s *Server) listAndFilterMultipartUploads(ctx context.Context, r *http.Requ
 	keyMarker := opts.KeyMarker
 	uploadIDMarker := opts.UploadIdMarker
 	baseRequest, _ := makeAuthorizationRequest(ctx, authorization.OperationListMultipartUploads, ptrutils.ToPtr(bucketName.String()), nil, r)
-	var nextKeyMarker *string
-	var nextUploadIDMarker *string
 
 	for {
+		// Uploads and common prefixes count together towards max-uploads. Only
+		// the entries that still fit are requested, so every storage page is
+		// taken whole and the listing continues at the markers it returns.
+		collectedCount := int32(len(collectedUploads) + len(collectedPrefixes))
 		result, err := s.storage.ListMultipartUploads(ctx, bucketName, storage.ListMultipartUploadsOptions{
 			Prefix:         opts.Prefix,
 			Delimiter:      opts.Delimiter,
 			KeyMarker:      keyMarker,
 			UploadIdMarker: uploadIDMarker,
-			MaxUploads:     maxUploads,
+			MaxUploads:     maxUploads - collectedCount,
 		})
 		if err != nil {
 			return nil, nil, nil, err
 		}
 
-		lastKeyMarker := keyMarker
-		lastUploadIDMarker := uploadIDMarker
-		for uploadIndex, upload := range result.Uploads {
-			uploadKey := upload.Key.String()
-			uploadID := upload.UploadId.String()
-			lastKeyMarker = &uploadKey
-			lastUploadIDMarker = &uploadID
-			allowed, err := s.authorizeListMultipartUpload(ctx, baseRequest, uploadKey, uploadID)
+		for _, upload := range result.Uploads {
+			allowed, err := s.authorizeListMultipartUpload(ctx, baseRequest, upload.Key.String(), upload.UploadId.String())
 			if err != nil {
 				return nil, nil, nil, err
 			}
@@ -213,19 +209,8 @@ func (s *Server) listAndFilterMultipartUploads(ctx context.Context, r *http.Requ
 				continue
 			}
 			collectedUploads = append(collectedUploads, upload)
-			if int32(len(collectedUploads)) >= maxUploads {
-				hasMore := uploadIndex < len(result.Uploads)-1 || len(result.CommonPrefixes) > 0 || result.IsTruncated
-				if hasMore {
-					nextKeyMarker = lastKeyMarker
-					nextUploadIDMarker = lastUploadIDMarker
-					return &storage.ListMultipartUploadsResult{BucketName: result.BucketName, KeyMarker: result.KeyMarker, UploadIdMarker: result.UploadIdMarker, NextKeyMarker: *lastKeyMarker, Prefix: result.Prefix, Delimiter: result.Delimiter, NextUploadIdMarker: *lastUploadIDMarker, MaxUploads: maxUploads, CommonPrefixes: collectedPrefixes, Uploads: collectedUploads, IsTruncated: true}, nextKeyMarker, nextUploadIDMarker, nil
-				}
-				return &storage.ListMultipartUploadsResult{BucketName: result.BucketName, KeyMarker: result.KeyMarker, UploadIdMarker: result.UploadIdMarker, Prefix: result.Prefix, Delimiter: result.Delimiter, MaxUploads: maxUploads, CommonPrefixes: collectedPrefixes, Uploads: collectedUploads, IsTruncated: false}, nil, nil, nil
-			}
 		}
 		for _, commonPrefix := range result.CommonPrefixes {
-			lastKeyMarker = &commonPrefix
-			lastUploadIDMarker = ptrutils.ToPtr("")
 			allowed, err := s.authorizeListMultipartUpload(ctx, baseRequest, commonPrefix, "")
 			if err != nil {
 				return nil, nil, nil, err
@@ -240,19 +225,19 @@ func (s *Server) listAndFilterMultipartUploads(ctx context.Context, r *http.Requ
 			collectedPrefixes = append(collectedPrefixes, commonPrefix)
 		}
 
-		if !result.IsTruncated {
+		if !result.IsTruncated || result.NextKeyMarker == "" {
 			return &storage.ListMultipartUploadsResult{BucketName: result.BucketName, KeyMarker: result.KeyMarker, UploadIdMarker: result.UploadIdMarker, Prefix: result.Prefix, Delimiter: result.Delimiter, MaxUploads: maxUploads, CommonPrefixes: collectedPrefixes, Uploads: collectedUploads, IsTruncated: false}, nil, nil, nil
 		}
-		if lastKeyMarker == nil || lastUploadIDMarker == nil {
+		nextKeyMarker := ptrutils.ToPtr(result.NextKeyMarker)
+		nextUploadIDMarker := ptrutils.ToPtr(result.NextUploadIdMarker)
+		if int32(len(collectedUploads)+len(collectedPrefixes)) >= maxUploads {
+			return &storage.ListMultipartUploadsResult{BucketName: result.BucketName, KeyMarker: result.KeyMarker, UploadIdMarker: result.UploadIdMarker, NextKeyMarker: result.NextKeyMarker, Prefix: result.Prefix, Delimiter: result.Delimiter, NextUploadIdMarker: result.NextUploadIdMarker, MaxUploads: maxUploads, CommonPrefixes: collectedPrefixes, Uploads: collectedUploads, IsTruncated: true}, nextKeyMarker, nextUploadIDMarker, nil
+		}
+		if keyMarker != nil && uploadIDMarker != nil && *keyMarker == *nextKeyMarker && *uploadIDMarker == *nextUploadIDMarker {
 			return &storage.ListMultipartUploadsResult{BucketName: result.BucketName, KeyMarker: result.KeyMarker, UploadIdMarker: result.UploadIdMarker, Prefix: result.Prefix, Delimiter: result.Delimiter, MaxUploads: maxUploads, CommonPrefixes: collectedPrefixes, Uploads: collectedUploads, IsTruncated: false}, nil, nil, nil
 		}
-		if keyMarker != nil && uploadIDMarker != nil && *keyMarker == *lastKeyMarker && *uploadIDMarker == *lastUploadIDMarker {
-			return &storage.ListMultipartUploadsResult{BucketName: result.BucketName, KeyMarker: result.KeyMarker, UploadIdMarker: result.UploadIdMarker, Prefix: result.Prefix, Delimiter: result.Delimiter, MaxUploads: maxUploads, CommonPrefixes: collectedPrefixes, Uploads: collectedUploads, IsTruncated: false}, nil, nil, nil
-		}
-		keyMarker = ptrutils.ToPtr(*lastKeyMarker)
-		uploadIDMarker = ptrutils.ToPtr(*lastUploadIDMarker)
-		nextKeyMarker = keyMarker
-		nextUploadIDMarker = uploadIDMarker
+		keyMarker = nextKeyMarker
+		uploadIDMarker = nextUploadIDMarker
 	}
 }
 
